@@ -414,7 +414,7 @@ type outcome struct {
 
 func mutatingStep(k string) bool {
 	switch k {
-	case "stat", "readdir", "readfile", "hread", "hstat", "hreaddir", "hclose", "open", "lstat":
+	case "stat", "readdir", "readfile", "hread", "hstat", "hreaddir", "hclose", "open", "lstat", "lstatorstat":
 		return false
 	}
 	return true
